@@ -33,8 +33,6 @@ pub open spec fn nodes_ok(v: DbView, i: u16) -> bool {
         _ => true,
     }
 }
-pub open spec fn leafv(v: DbView, i: u16, id: u32) -> LeafV { v[ikey(i, id)]->Leaf_0 }
-pub open spec fn in_filter(c: Option<&RoaringBitmap>, id: u32) -> bool { match c { Some(b) => b@.contains(id), None => true } }
 
 // ---- C04 (reader side): what a queued entry is ---------------------------------------------------------------------------
 /// entry `e` is the left (right) child of split `pid`, queued with the priority computed from the parent's bound `d`
@@ -49,10 +47,10 @@ pub open spec fn qentry_ok(m: TM, roots: Seq<u32>, qv: VecV, e: (OrderedFloat, N
 }
 // ---- C02: exact search ------------------------------------------------------------------------------------------------------
 //@include lib/search_specs.rs
+//@include lib/search_trace.rs
 pub open spec fn covered(m: TM, nns: Seq<u32>, q: Multiset<(OrderedFloat, NodeId)>, x: u32) -> bool {
     nns.contains(x) || (exists|e: (OrderedFloat, NodeId)| #![trigger q.count(e)] q.count(e) > 0 && titems(m, e.1).contains(x))
 }
-pub uninterp spec fn f32_inf_spec() -> f32;
 pub open spec fn unlimited(opt: &QueryBuilder, n_roots: usize) -> bool {
     sat_mul(match opt.search_k { Some(k) => k.v, None => sat_mul(opt.count, n_roots) }, match opt.oversampling { Some(o) => o.v, None => Dist::default_oversampling() }) == usize::MAX
 }
@@ -153,11 +151,17 @@ dedup_(&mut nns);
             // every stored item inside the filter is either returned, or the result is full and the item is not nearer than any returned one
             forall|id: u32| #![trigger self.items@.contains(id)] self.items@.contains(id) && in_filter(opt.candidates, id) ==>
                 exact_at_exit(rtxn.view(), self.index, query_leaf.lv(), opt.count, out@, id)),
+        // C03 (budget monotonicity, with lemma_budget_monotone of unit search_lib): the candidates are those of the budget-independent
+        // traversal stopped where the budget says, and the result is the selection of the `count` nearest among them
+        r matches Ok(out) ==> (self.items@.len() == 0 ==> out@.len() == 0),
+        r matches Ok(out) ==> (self.items@.len() != 0 ==> exists|j: nat| #![trigger t_iter(rtxn.view(), self.index, opt.candidates, query_leaf.vector.vv(), t_init(self.roots@), j)]
+            t_stops(rtxn.view(), self.index, opt.candidates, query_leaf.vector.vv(), t_init(self.roots@), budget(opt, self.roots@.len() as usize), j)
+            && top_of(rtxn.view(), self.index, query_leaf.lv(), opt.count, t_iter(rtxn.view(), self.index, opt.candidates, query_leaf.vector.vv(), t_init(self.roots@), j).nns, out@)),
         // on a C01 forest the search never fails for a missing key
         search_forest_ok(rtxn.view(), self.index, self.roots@, self.items@) ==> !(r matches Err(Error::MissingKey { .. })),
         r matches Err(e) ==> e is Heed || e is MissingKey,
 //@hint before <<<sort_unstable_(&mut nns);>>>
-        let ghost nns_a = nns@;
+        let ghost nns_a = nns@; let ghost jfin = jj;
 //@hint after <<<sort_unstable_(&mut nns);>>>
         let ghost nns_b = nns@;
 //@hint after <<<dedup_(&mut nns);>>>
@@ -172,6 +176,7 @@ dedup_(&mut nns);
             }
             // C03 (necessary for budget monotonicity): no candidate collected by the traversal is dropped before scoring
             assert forall|x: u32| nns_a.contains(x) implies nns@.contains(x) by { assert(nns_b.contains(x)); }
+            assert forall|i: int| 0 <= i < nns@.len() implies nns_a.contains(#[trigger] nns@[i]) by { assert(nns@.contains(nns@[i])); assert(nns_b.contains(nns@[i])); }
             // C02: with the queue drained, every stored item inside the filter is among the candidates
             if sf && unl {
                 assert forall|x: u32| #![trigger items.contains(x)] items.contains(x) && in_filter(opt.candidates, x) implies nns@.contains(x) by {
@@ -205,10 +210,12 @@ dedup_(&mut nns);
                     assert(sorted_nns.view().count(nd[j]) > 0);
                 }
             }
-            assert forall|e: Reverse<(OrderedFloat, ItemId)>| sorted_nns.view().count(e) > 0 implies heap_elem_ok(rtxn.view(), self.index, opt.candidates, query_leaf.lv(), e) by {
+            assert forall|e: Reverse<(OrderedFloat, ItemId)>| #![trigger sorted_nns.view().count(e)] sorted_nns.view().count(e) > 0 implies heap_elem_ok(rtxn.view(), self.index, opt.candidates, query_leaf.lv(), e) && nns_a.contains((e.0).1) by {
                 assert(nd.contains(e));
                 let i = choose|i: int| 0 <= i < nd.len() && nd[i] == e;
                 assert(heap_elem_ok(rtxn.view(), self.index, opt.candidates, query_leaf.lv(), nd[i]));
+                assert((nd[i].0).1 == nns@[i]);
+                assert(nns_a.contains(nns@[i]));
             }
         }
 //@hint before <<<let mut nns = Vec::new();>>>
@@ -221,6 +228,8 @@ dedup_(&mut nns);
         let ghost qv = query_leaf.vector.vv();
         let ghost items = self.items@;
         let ghost unl = unlimited(opt, self.roots@.len() as usize);
+        let ghost vw = rtxn.view(); let ghost s0 = t_init(self.roots@); let ghost jj: nat = 0;
+        proof { assert(queue.hist() =~= s0.hist); }
         proof {
             if sf {
                 assert forall|x: u32| items.contains(x) && in_filter(opt.candidates, x) implies covered(m, Seq::<u32>::empty(), queue.view(), x) by {
@@ -256,11 +265,38 @@ dedup_(&mut nns);
             sf ==> (forall|x: u32| #![trigger items.contains(x)] items.contains(x) && in_filter(opt.candidates, x) ==> covered(m, nns@, queue.view(), x)),
             forall|x: (OrderedFloat, NodeId)| queue.view().count(x) > 0 ==> (x.1.mode == NodeMode::Tree || x.1.mode == NodeMode::Item),
             forall|i: int| 0 <= i < nns@.len() ==> in_filter(opt.candidates, #[trigger] nns@[i]),
+            // C03: the state is the one the budget-independent traversal reaches after jj passes, all of them allowed by the budget
+            vw == rtxn.view(), s0 == t_init(self.roots@), search_k == budget(opt, self.roots@.len() as usize),
+            t_iter(vw, self.index, opt.candidates, qv, s0, jj) == (TSt { hist: queue.hist(), nns: nns@ }),
+            forall|a: nat| a < jj ==> t_running(#[trigger] t_iter(vw, self.index, opt.candidates, qv, s0, a), search_k),
         ensures
             unl ==> queue.view().len() == 0,
+            t_stops(vw, self.index, opt.candidates, qv, s0, search_k, jj),
 //@loopstart 0
-            let ghost q0 = queue.view(); let ghost n0 = nns@;
+            let ghost q0 = queue.view(); let ghost n0 = nns@; let ghost h0 = queue.hist(); let ghost st0 = TSt { hist: h0, nns: n0 };
+            proof { assert(t_running(st0, search_k) || pop_of(h0) is None); }
 //@loopend 0
+            proof {
+                // C03: this pass is one step of the budget-independent traversal
+                let kk = akey(self.index, item.mode, item.item);
+                assert(pop_of(h0) == Some((OrderedFloat(dist), item)));
+                assert(vw.contains_key(kk));
+                let st1 = TSt { hist: queue.hist(), nns: nns@ };
+                match vw[kk] {
+                    AVal::Leaf(_) => { assert(st1.hist == h0.push(HOp::Pop)); assert(st1.nns == (if in_filter(opt.candidates, item.item) { n0.push(item.item) } else { n0 })); }
+                    AVal::Tree(TNode::Desc(b)) => { assert(st1.hist == h0.push(HOp::Pop)); assert(st1.nns == n0 + bm_seq(filt(opt.candidates, b))); }
+                    AVal::Tree(TNode::Split(l, r, nrm)) => {
+                        assert(st1.nns == n0);
+                        assert(st1.hist == h0.push(HOp::Pop).push(HOp::Push((OrderedFloat(Dist::pq_spec(dist, Dist::margin_spec(nrm, qv), true)), l)))
+                            .push(HOp::Push((OrderedFloat(Dist::pq_spec(dist, Dist::margin_spec(nrm, qv), false)), r))));
+                    }
+                    _ => { assert(false); }
+                }
+                assert(st1 == t_step(vw, self.index, opt.candidates, qv, st0));
+                assert(t_running(st0, search_k));
+                jj = jj + 1;
+                assert(t_iter(vw, self.index, opt.candidates, qv, s0, jj) == t_step(vw, self.index, opt.candidates, qv, t_iter(vw, self.index, opt.candidates, qv, s0, (jj - 1) as nat)));
+            }
             proof {
                 broadcast use vstd::multiset::group_multiset_axioms;
                 axiom_vec_len_bound(&nns);
@@ -314,6 +350,11 @@ dedup_(&mut nns);
             unl == unlimited(opt, self.roots@.len() as usize),
             sf && unl ==> (forall|x: u32| #![trigger items.contains(x)] items.contains(x) && in_filter(opt.candidates, x) ==> nns@.contains(x)),
             0 <= idx__0 <= nns@.len(),
+            vw == rtxn.view(), s0 == t_init(self.roots@), qv == query_leaf.vector.vv(),
+            t_stops(vw, self.index, opt.candidates, qv, s0, budget(opt, self.roots@.len() as usize), jfin),
+            t_iter(vw, self.index, opt.candidates, qv, s0, jfin).nns == nns_a,
+            forall|i: int| 0 <= i < nns@.len() ==> nns_a.contains(#[trigger] nns@[i]),
+            forall|x: u32| nns_a.contains(x) ==> nns@.contains(x),
             forall|i: int| 0 <= i < nns@.len() ==> in_filter(opt.candidates, #[trigger] nns@[i]),
             forall|i: int, j: int| 0 <= i < j < nns@.len() ==> nns@[i] < nns@[j],
             nns_distances@.len() == idx__0,
@@ -329,6 +370,15 @@ dedup_(&mut nns);
                     broadcast use vstd::multiset::group_multiset_axioms;
                     let xp = Reverse((OrderedFloat(dist), item));
                     assert(capacity == opt.count);
+                    assert forall|x: u32| nns_a.contains(x) implies exact_at_exit(rtxn.view(), self.index, query_leaf.lv(), opt.count, output@, x) by {
+                        if !(exists|i: int| 0 <= i < output@.len() && output@[i].0 == x) {
+                            let e = choose|e: Reverse<(OrderedFloat, ItemId)>| #![trigger h0.count(e)] h0.count(e) > 0 && (e.0).1 == x;
+                            assert(heap_elem_ok(rtxn.view(), self.index, opt.candidates, query_leaf.lv(), e));
+                            assert forall|i: int| 0 <= i < output@.len() implies pair_le(
+                                (Dist::built_spec(query_leaf.lv(), leafv(rtxn.view(), self.index, (#[trigger] output@[i]).0)), output@[i].0),
+                                (Dist::built_spec(query_leaf.lv(), leafv(rtxn.view(), self.index, x)), x)) by {}
+                        }
+                    }
                     if sf && unl {
                         assert forall|x: u32| #![trigger items.contains(x)] items.contains(x) && in_filter(opt.candidates, x) implies exact_at_exit(rtxn.view(), self.index, query_leaf.lv(), opt.count, output@, x) by {
                             if !(exists|i: int| 0 <= i < output@.len() && output@[i].0 == x) {
@@ -344,6 +394,7 @@ dedup_(&mut nns);
 //@loop 2
         invariant_except_break
             sorted_nns.view().len() + output@.len() == total,
+            forall|x: u32| nns_a.contains(x) ==> (exists|i: int| 0 <= i < output@.len() && output@[i].0 == x) || in_heap(sorted_nns.view(), x),
             sf && unl ==> (forall|x: u32| #![trigger items.contains(x)] items.contains(x) && in_filter(opt.candidates, x) ==>
                 (exists|i: int| 0 <= i < output@.len() && output@[i].0 == x) || in_heap(sorted_nns.view(), x)),
         invariant
@@ -351,6 +402,11 @@ dedup_(&mut nns);
             unl == unlimited(opt, self.roots@.len() as usize),
             capacity == (if opt.count <= total { opt.count as int } else { total as int }),
             capacity <= opt.count, output@.len() <= capacity,
+            vw == rtxn.view(), s0 == t_init(self.roots@), qv == query_leaf.vector.vv(),
+            t_stops(vw, self.index, opt.candidates, qv, s0, budget(opt, self.roots@.len() as usize), jfin),
+            t_iter(vw, self.index, opt.candidates, qv, s0, jfin).nns == nns_a,
+            forall|e: Reverse<(OrderedFloat, ItemId)>| #![trigger sorted_nns.view().count(e)] sorted_nns.view().count(e) > 0 ==> nns_a.contains((e.0).1),
+            forall|i: int| 0 <= i < output@.len() ==> nns_a.contains((#[trigger] output@[i]).0),
             // what is still in the heap
             forall|e: Reverse<(OrderedFloat, ItemId)>| #![trigger sorted_nns.view().count(e)] sorted_nns.view().count(e) > 0 ==> heap_elem_ok(rtxn.view(), self.index, opt.candidates, query_leaf.lv(), e),
             forall|e: Reverse<(OrderedFloat, ItemId)>| #![trigger sorted_nns.view().count(e)] sorted_nns.view().count(e) <= 1,
@@ -363,6 +419,7 @@ dedup_(&mut nns);
                     (Dist::built_spec(query_leaf.lv(), leafv(rtxn.view(), self.index, output@[j].0)), output@[j].0)),
         ensures
             sf && unl ==> (forall|x: u32| #![trigger items.contains(x)] items.contains(x) && in_filter(opt.candidates, x) ==> exact_at_exit(rtxn.view(), self.index, query_leaf.lv(), opt.count, output@, x)),
+            forall|x: u32| nns_a.contains(x) ==> exact_at_exit(rtxn.view(), self.index, query_leaf.lv(), opt.count, output@, x),
 //@loopstart 2
             let ghost out0 = output@;
             let ghost h0 = sorted_nns.view().insert(Reverse((OrderedFloat(dist), item)));
@@ -370,6 +427,14 @@ dedup_(&mut nns);
             proof {
                 broadcast use vstd::multiset::group_multiset_axioms;
                 let x = Reverse((OrderedFloat(dist), item));
+                assert forall|y: u32| nns_a.contains(y) implies (exists|i: int| 0 <= i < output@.len() && output@[i].0 == y) || in_heap(sorted_nns.view(), y) by {
+                    if exists|i: int| 0 <= i < out0.len() && out0[i].0 == y { let i = choose|i: int| 0 <= i < out0.len() && out0[i].0 == y; assert(output@[i].0 == y); }
+                    else {
+                        let e = choose|e: Reverse<(OrderedFloat, ItemId)>| #![trigger h0.count(e)] h0.count(e) > 0 && (e.0).1 == y;
+                        if e == x { assert(output@[out0.len() as int].0 == y); } else { assert(sorted_nns.view().count(e) > 0); }
+                    }
+                }
+                assert(nns_a.contains(item));
                 if sf && unl {
                     assert forall|y: u32| #![trigger items.contains(y)] items.contains(y) && in_filter(opt.candidates, y) implies
                         (exists|i: int| 0 <= i < output@.len() && output@[i].0 == y) || in_heap(sorted_nns.view(), y) by {
@@ -401,11 +466,6 @@ dedup_(&mut nns);
 
 pub open spec fn in_heap(h: Multiset<Reverse<(OrderedFloat, ItemId)>>, x: u32) -> bool {
     exists|e: Reverse<(OrderedFloat, ItemId)>| #![trigger h.count(e)] h.count(e) > 0 && (e.0).1 == x
-}
-/// item x is either returned or at least as far (in (distance, id) order) as every returned item, the result being full
-pub open spec fn exact_at_exit(v: DbView, i: u16, q: LeafV, count: usize, out: Seq<(ItemId, f32)>, x: u32) -> bool {
-    (exists|k: int| 0 <= k < out.len() && out[k].0 == x)
-    || (out.len() == count && forall|k: int| 0 <= k < out.len() ==> pair_le((Dist::built_spec(q, leafv(v, i, (#[trigger] out[k]).0)), out[k].0), (Dist::built_spec(q, leafv(v, i, x)), x)))
 }
 pub open spec fn heap_elem_ok(v: DbView, index: u16, c: Option<&RoaringBitmap>, q: LeafV, e: Reverse<(OrderedFloat, ItemId)>) -> bool {
     &&& v.contains_key(ikey(index, (e.0).1))
